@@ -5,6 +5,7 @@
 mod sexp;
 mod conv;
 mod ops;
+mod ops_solve;
 
 use std::io::{BufRead, Write};
 use std::panic;
